@@ -357,6 +357,7 @@ pub fn run(tier: Tier, shard: Shard, rep: &mut Report) {
          some order of equal ranks (input order, then the order read off the output, then brute force over \
          tie-group permutations); for n <= {} the same entries are also handed over as a lazy iterator under each of \
          4 size_hint answers (0,None) (0,Some(n)) (n/2,Some(n+3)) (n,None) x capacities 0..=n+1 and usize::MAX; \
+         inputs of 20, 24, 33 and 64 entries (5 rank patterns x 5 flag patterns) at every capacity 0..=n+1; \
          plus enumerated large families (thorough). Non-trivial = n > capacity \
          and (a tie or an accessed entry is present). All cases are distinct by construction.",
         max_n, lazy_n
@@ -406,6 +407,44 @@ pub fn run(tier: Tier, shard: Shard, rep: &mut Report) {
         }
     }
     rep.fact("max_n_exhaustive", json!(max_n));
+    // mid-sized inputs at EVERY capacity 0..=n+1 (thresholds in the amount to evict that small n cannot reach)
+    {
+        let mut mid_no = 0u64;
+        let ns: &[usize] = if tier == Tier::Quick { &[20, 24, 33, 64] } else { &[20, 21, 24, 33, 64, 100, 257] };
+        for &n in ns {
+            for rp in 0..5 {
+                for fp in 0..5 {
+                    let input: Vec<(u64, bool)> = (0..n)
+                        .map(|i| {
+                            let rank = match rp {
+                                0 => 7,
+                                1 => i as u64,
+                                2 => (n - i) as u64,
+                                3 => (i % 3) as u64,
+                                _ => (i as u64).wrapping_mul(0x9E3779B97F4A7C15),
+                            };
+                            let acc = match fp {
+                                0 => false,
+                                1 => true,
+                                2 => i % 2 == 0,
+                                3 => i < n / 2,
+                                _ => i % 5 == 4,
+                            };
+                            (rank, acc)
+                        })
+                        .collect();
+                    for capacity in 0..=(n + 1) {
+                        mid_no += 1;
+                        if !shard.mine(mid_no) {
+                            continue;
+                        }
+                        record(rep, &input, capacity, false);
+                        rep.count("mid_size_cases", 1);
+                    }
+                }
+            }
+        }
+    }
     if tier == Tier::Thorough {
         let mut fam_no = 0u64;
         for &n in &[100usize, 1000, 5000] {
